@@ -9,8 +9,21 @@ import (
 func (g *G) literal() string {
 	switch g.pick(20) {
 	case 0:
-		xs := []string{"NaN", "nan", "Inf", "inf", "+Inf", "-inf", "Infinity", "-INFINITY", "+infinity", "iNf", "infinit", "nan0", "", "+", "-", ".", "e", "1e", "1e+", "_1", "1_", "1__0", "1_.0", "1._0", ".e1", "0x10", "1e1e1", "1.2.3", "--1", "+-1", " 1", "1 "}
+		xs := []string{"NaN", "nan", "Inf", "inf", "+Inf", "-inf", "Infinity", "-INFINITY", "+infinity", "iNf", "infinit", "nan0", "", "+", "-", ".", "e", "1e", "1e+", "_1", "1_", "1__0", "1_.0", "1._0", ".e1", "0x10", "1e1e1", "1.2.3", "--1", "+-1", " 1", "1 ",
+			// letters that case mapping folds onto ASCII ones (U+0130 lower-cases to 'i', U+212A to 'k', U+017F upper-cases to 'S')
+			"\u0130nf", "-\u0130nf", "\u0130nfinity", "inf\u0130nity", "\u0130NF", "\u0131nf", "na\u0274", "\u212anf",
+			// integers around the 64-bit limits, written plainly
+			"18446744073709551615", "18446744073709551616", "18446744073709551617", "99999999999999999999", "-99999999999999999999",
+			"9223372036854775807", "9223372036854775808", "-9223372036854775809", "100000000000000000000", "27670116110564327424"}
 		return xs[g.pick(len(xs))]
+	case 3:
+		// malformed late: a separator next to the point or the exponent marker (or doubled) after the first 19 digits,
+		// where the parser has switched to its wide accumulator
+		ip := g.digitsStr(19+g.pick(22), false)
+		fp := g.digitsStr(1+g.pick(20), false)
+		forms := []string{ip + "_." + fp, ip + "._" + fp, ip + "." + fp + "_", ip + "_e5", ip + "." + fp + "_e5", ip + "e_5", ip + "e5_",
+			ip + "__" + fp, ip + "." + fp + "e1_0", ip + "e1_0", "_" + ip, ip + "_" + fp + "." + fp, ip + "." + fp + "_" + fp}
+		return forms[g.pick(len(forms))]
 	case 1:
 		b := make([]byte, g.pick(6))
 		for i := range b {
